@@ -348,8 +348,11 @@ def single_thread_prefetch(
                 data_queue.put(item)
                 if shutdown:
                     return
-        except Exception:
-            # Save the exception and reraise it in the main thread
+        except BaseException:
+            # Save the exception and reraise it in the main thread.
+            # Note: Exceptions that do not inherit from Exception (e.g.
+            # SystemExit) must also be forwarded, otherwise the iteration
+            # stops silently as if the generator were exhausted.
             nonlocal exc_info
             # https://stackoverflow.com/a/1854263/5766934
             exc_info = sys.exc_info()
